@@ -149,12 +149,44 @@ def _proc_cells():
                         yield (mn, val.__name__, an), val, an
 
 
+def _proc_defaults():
+    """mutable DEFAULT ARGUMENTS of the functions and methods of the same modules (`__defaults__` / `__kwdefaults__` holding dicts,
+    lists or sets): one object per function for the whole process.  Yields (key, the mutable object)."""
+    import inspect, importlib
+    for mn in _PROC_MODULES:
+        try:
+            mod = importlib.import_module(mn)
+        except Exception:
+            continue
+        funcs = []
+        for name, val in list(vars(mod).items()):
+            if inspect.isfunction(val) and val.__module__ == mn:
+                funcs.append((None, name, val))
+            if inspect.isclass(val) and getattr(val, "__module__", None) == mn:
+                for an, av in list(vars(val).items()):
+                    f = av.__func__ if isinstance(av, (staticmethod, classmethod)) else av
+                    if inspect.isfunction(f):
+                        funcs.append((val.__name__, an, f))
+        for cls, fn, f in funcs:
+            for j, d in enumerate(f.__defaults__ or ()):
+                if isinstance(d, (dict, list, set)):
+                    yield (mn, cls, f"{fn}.__defaults__[{j}]"), d
+            for kn, d in (f.__kwdefaults__ or {}).items():
+                if isinstance(d, (dict, list, set)):
+                    yield (mn, cls, f"{fn}.__kwdefaults__[{kn}]"), d
+
+
 def proc_snapshot():
     import copy
     if not _proc_snapshot:
         for key, owner, name in _proc_cells():
             try:
                 _proc_snapshot[key] = copy.deepcopy(getattr(owner, name))
+            except Exception:
+                pass
+        for key, obj in _proc_defaults():
+            try:
+                _proc_snapshot[key] = copy.deepcopy(obj)
             except Exception:
                 pass
 
@@ -169,6 +201,20 @@ def proc_restore():
                 if getattr(owner, name) != _proc_snapshot[key]:
                     _proc_dirty.add(".".join(x for x in (key[0].split(".")[-1], key[1], key[2]) if x))
                     setattr(owner, name, copy.deepcopy(_proc_snapshot[key]))
+            except Exception:
+                pass
+    for key, obj in _proc_defaults():
+        if key in _proc_snapshot:
+            try:
+                if obj != _proc_snapshot[key]:
+                    _proc_dirty.add(".".join(x for x in (key[0].split(".")[-1], key[1], key[2]) if x))
+                    fresh = copy.deepcopy(_proc_snapshot[key])      # the default object itself cannot be replaced: restore it in place
+                    if isinstance(obj, dict):
+                        obj.clear(); obj.update(fresh)
+                    elif isinstance(obj, list):
+                        obj[:] = fresh
+                    else:
+                        obj.clear(); obj.update(fresh)
             except Exception:
                 pass
 
@@ -737,10 +783,12 @@ def shrink(srvs, solo, style, ad, lists, own, seq):
 def probe_style(srvs, solo, style):
     """instancesShareNothing for the factory style: settings of both kinds through instance 0 (begin-session and
     run-step) and through the server-level /run, steps of instance 1 — lookups of `tbl` read the points."""
-    lists = [[("b", ("p", 6)), ("s", ("c", 5)), ("s", ("p", 7)), ("s", None)], [("b", None), ("s", None), ("s", None), ("s", None), ("r",)]]
+    # … and instance 1, having stepped before, finally sends EXACTLY the step settings instance 0 applied last (different from its own values)
+    lists = [[("b", ("p", 6)), ("s", ("c", 5)), ("s", ("p", 7)), ("s", None), ("s", ("m", ((1, 4), (3, 9))))],
+             [("b", None), ("s", None), ("s", None), ("s", None), ("s", ("m", ((1, 4), (3, 9)))), ("s", None), ("r",)]]
     own = [("R", ("p", 3))]
     seq = [(0, lists[0][0]), (1, lists[1][0]), (0, lists[0][1]), (1, lists[1][1]), (0, lists[0][2]), (1, lists[1][2]), (OWN, own[0]),
-           (0, lists[0][3]), (1, lists[1][3]), (1, lists[1][4])]
+           (0, lists[0][3]), (1, lists[1][3]), (0, lists[0][4]), (1, lists[1][4]), (1, lists[1][5]), (1, lists[1][6])]
     toks, diffs = check_case(srvs, solo, style, False, lists, own, seq)
     return not diffs, (lists, own, seq, diffs)
 
@@ -918,6 +966,7 @@ FINDING_KEY = {"fresh": "cross-talk-fresh-model-factory", "sharedBase": "cross-t
 RESTORE_KEY = "cross-talk-restore-rebuilds-other-instances"
 RECYCLE_KEY = "cross-talk-recycled-instance-object"
 HANDLER_KEY = "cross-talk-handler-class-level-defaults"
+FUNCDEF_KEY = "cross-talk-function-default-argument"
 
 
 def run(chk):
@@ -958,7 +1007,11 @@ def _run(chk, srvs):
     # handler-level state: did the probe histories (begin-session with settings on one instance, begin-session WITHOUT the key on
     # another) write into a class attribute of the server module?
     proc_restore()
-    facts["kindHandler"] = any(n.startswith("bptkServer.") for n in _proc_dirty)
+    facts["kindHandler"] = any(n.startswith("bptkServer.") and "__defaults__" not in n and "__kwdefaults__" not in n for n in _proc_dirty)
+    # (`bptk.run_scenarios(series_names={})` fills its default dictionary with column names for the dataframe format on the clean tree too:
+    # the known wart behind "pass series_names explicitly"; it does not reach a JSON response)
+    benign = {"bptk.bptk.run_scenarios.__defaults__[5]"}
+    facts["kindFuncDefault"] = any(("__defaults__" in n or "__kwdefaults__" in n) and n not in benign for n in _proc_dirty)
     chk.notes["process_level_state_written_by_probes"] = sorted(_proc_dirty)
     for st in STYLES:
         if not facts[st]:
@@ -1094,6 +1147,16 @@ def _run(chk, srvs):
         ph1 = random_merge(rng, [A, B[:h]])
         ph2 = [(2 if i == 0 else 1, o) for i, o in random_merge(rng, [C, B[h:]])]
         add_case(rng.choice(["fresh", "files", "files", "sharedBase"]), ad, [A, B, C], [], ph1 + ph2, "sampled_merges")
+    # wave 10: the second instance, having stepped before, sends EXACTLY the step settings the first instance applied last (and that
+    # differ from its own current values): a process-wide "applied last" memo keyed by manager / scenario NAMES would skip them
+    for n in range(14 if chk.quick else 150):
+        S = rand_setting(rng, 0)
+        T = rand_setting(rng, 0)
+        A = [("b", rand_setting(rng, 2)), ("s", rand_setting(rng, 2)), ("s", S)] + ([("s", None)] if rng.chance(1, 2) else [])
+        B = [("b", rand_setting(rng, 3)), ("s", T if rng.chance(1, 2) else None), ("s", S), ("s", None), ("r",)]
+        seq = [(1, B[0]), (1, B[1]), (0, A[0]), (0, A[1]), (0, A[2]), (1, B[2])] + [(0, o) for o in A[3:]] + [(1, o) for o in B[3:]]
+        add_case(rng.choice(["fresh", "files", "sharedBase"]), rng.chance(1, 3), [A, B], [], seq, "sampled_merges")
+        dist["step_settings_equal_to_the_other_instances_last"] = dist.get("step_settings_equal_to_the_other_instances_last", 0) + 1
     for lists, ghost in directed:
         ms = list(merges(lists + ([ghost] if ghost else [])))
         if ghost:
@@ -1146,7 +1209,7 @@ def _run(chk, srvs):
                  nontrivial=nsett >= 2 or any(o[0] in ("x", "t", "c") for l in lists for o in l),
                  sample={"style": st, "adapter": ad, "seq": [op_str(i, op) for i, op in seq]} if len(seq) > 8 else None)
         key = (RESTORE_KEY if (ad and not facts["restore"]) else RECYCLE_KEY if not facts["freshObj"] else
-               HANDLER_KEY if facts["kindHandler"] else FINDING_KEY[st])
+               HANDLER_KEY if facts["kindHandler"] else FUNCDEF_KEY if facts["kindFuncDefault"] else FINDING_KEY[st])
         if diffs and key not in first:
             first[key] = (st, ad, lists, own, seq)
     # concurrent handlers for different instances
@@ -1164,7 +1227,7 @@ def _run(chk, srvs):
         bodies += [None, None, [b for _, b in check_conc_case.last_got]]
         chk.case((st, ad, schedule, pa, pb, tuple(op_str(i, op) for i, op in seq)), nontrivial=True)
         if (diffs and st not in conc_first and FINDING_KEY[st] not in first and not (ad and not facts["restore"]) and facts["freshObj"]
-                and not facts["kindHandler"]):
+                and not facts["kindHandler"] and not facts["kindFuncDefault"]):
             conc_first[st] = (ad, lists, pa, pb, schedule, seq, diffs)
     proc_restore()
     chk.notes["process_level_state_written"] = sorted(_proc_dirty)
@@ -1173,7 +1236,7 @@ def _run(chk, srvs):
     chk.cov["input_distribution"] = dist
     chk.cov["traces_validated_against_impl"] = len(cases) + conc["cases"]
     for st in STYLES:
-        k_ = HANDLER_KEY if facts["kindHandler"] else FINDING_KEY[st]
+        k_ = HANDLER_KEY if facts["kindHandler"] else FUNCDEF_KEY if facts["kindFuncDefault"] else FINDING_KEY[st]
         if not facts[st] and k_ not in first:
             first[k_] = (st, False, pdetail[st][0], pdetail[st][1], pdetail[st][2])
     if not facts["restore"] and RESTORE_KEY not in first:
@@ -1213,7 +1276,7 @@ def _run(chk, srvs):
     # values: with all mechanism facts good, the numbers of every step / run body equal the closed form of the harness model on the
     # effective settings the machine predicts
     vdiff, nvals = None, 0
-    all_good = all(facts[k] for k in facts if k not in ("kindScn", "kindHandler"))
+    all_good = all(facts[k] for k in facts if k not in ("kindScn", "kindHandler", "kindFuncDefault"))
     if all_good:
         for j, (a, bs) in enumerate(zip(model, bodies)):
             if bs is None:
